@@ -3,6 +3,7 @@
 package alt
 
 import (
+	"encoding/json"
 	"fmt"
 	"reflect"
 	"time"
@@ -70,6 +71,8 @@ func Generify(v any, options ...*Options) (n gen.Node) {
 			n = gen.Time(tv)
 		case gen.Time:
 			n = tv
+		case json.Number:
+			n = gen.Big(tv)
 		case []any:
 			a := make(gen.Array, len(tv))
 			for i, m := range tv {
@@ -151,10 +154,12 @@ func GenAlter(v any, options ...*Options) (n gen.Node) {
 			n = tv
 		case time.Time:
 			n = gen.Time(tv)
+		case json.Number:
+			n = gen.Big(tv)
 		case []any:
 			a := *(*gen.Array)(unsafe.Pointer(&tv))
 			for i, m := range tv {
-				a[i] = GenAlter(m)
+				a[i] = GenAlter(m, opt)
 			}
 			n = a
 		case map[string]any:
